@@ -115,10 +115,10 @@ func vfNextRand(kind string, n int64) (int64, float64, bool) {
 	return ent.i, ent.f, true
 }
 
-// vfFree: sampling mode. The harness's own inputs are drawn at random (private generator, the
+// vfSampling: sampling mode. The harness's own inputs are drawn at random (private generator, the
 // global one is left to the code under test).
 var (
-	vfFree   bool
+	vfSampling   bool
 	vfRngVal *rand.Rand
 )
 
@@ -144,7 +144,7 @@ func vfNext(kinds ...string) string {
 }
 
 func nondetByte() uint8 {
-	if vfFree {
+	if vfSampling {
 		return uint8(vfRng().Intn(256))
 	}
 	n, _ := strconv.ParseUint(vfNext("u8"), 10, 8)
@@ -152,14 +152,14 @@ func nondetByte() uint8 {
 }
 
 func nondetBool() bool {
-	if vfFree {
+	if vfSampling {
 		return vfRng().Intn(2) == 1
 	}
 	return vfNext("bool") == "true"
 }
 
 func nondetInt() int {
-	if vfFree {
+	if vfSampling {
 		return vfRng().Intn(17) - 8
 	}
 	n, _ := strconv.ParseInt(vfNext("i64"), 10, 64)
@@ -168,7 +168,7 @@ func nondetInt() int {
 
 // nondetRange returns an int in [lo, hi]; the engine enumerates every value (shape choice).
 func nondetRange(lo, hi int) int {
-	if vfFree {
+	if vfSampling {
 		if hi < lo {
 			panic(vfStop{kind: "assume", label: "empty range"})
 		}
@@ -183,7 +183,7 @@ func nondetRange(lo, hi int) int {
 
 // nondetFloat returns an arbitrary finite float64 (an arbitrary real under the engine).
 func nondetFloat() float64 {
-	if vfFree {
+	if vfSampling {
 		return float64(vfRng().Intn(65)-32) / 16
 	}
 	f, _ := strconv.ParseFloat(vfNext("f64"), 64)
@@ -192,7 +192,7 @@ func nondetFloat() float64 {
 
 // nondetDyadic returns k/den for an arbitrary integer k in [lo, hi].
 func nondetDyadic(den, lo, hi int) float64 {
-	if vfFree {
+	if vfSampling {
 		return float64(lo+vfRng().Intn(hi-lo+1)) / float64(den)
 	}
 	f, _ := strconv.ParseFloat(vfNext("f64"), 64)
